@@ -48,12 +48,12 @@ Proof.
   intros Hr Ha Hw He. apply canon_phase; try assumption; [apply Flin_sub; exact Hs|].
   eapply sub_assign_canon; eauto.
 Qed.
-Theorem phase_sub_negate_assign res a r : wf_glwe n res -> wf_glwe n a -> g_ncols a = g_ncols res ->
+Theorem phase_sub_negate_assign res a r : wf_glwe n res -> wf_glwe n a ->
   (forall i j, vsub W64 (gl n a i j) (gl n res i j) = psub (gl n a i j) (gl n res i j)) ->
   glwe_sub_negate_assign n res a = Some r ->
   phase n s r = pt_map2 Fsub n (g_size res) (phase n s a) (phase n s res).
 Proof.
-  intros Hr Ha Hc Hw He. apply canon_phase; try assumption; [apply Flin_sub; exact Hs|].
+  intros Hr Ha Hw He. apply canon_phase; try assumption; [apply Flin_sub; exact Hs|].
   eapply sub_negate_assign_canon; eauto.
 Qed.
 
@@ -158,12 +158,12 @@ Proof.
   { unfold as_out_of_place in H2. destruct opc as [|p|p]; try discriminate.
     repeat (match goal with q : positive |- _ => destruct q end; try (cbn in H2; discriminate)); lia. }
   destruct Hc as [-> | [-> | [-> | [-> | [-> | ->]]]]]; cbn [as_out_of_place exec_op] in *;
-    unfold step_exact in Hstep; cbn [exact_F Fw pick3] in Hstep; destruct Hstep as [Hw H5].
+    unfold step_exact in Hstep; cbn [exact_F Fw pick3] in Hstep; rename Hstep into Hw.
   - destruct (add_assign_canon n res a r1 Hres Ha Hw H1) as (-> & _).
     destruct (add_into_canon n res res a r2 Hres Hres Ha Hw H2) as (-> & _). reflexivity.
   - destruct (sub_assign_canon n res a r1 Hres Ha Hw H1) as (-> & _).
     destruct (sub_canon n res res a r2 Hres Hres Ha Hw H2) as (-> & _). reflexivity.
-  - destruct (sub_negate_assign_canon n res a r1 Hres Ha (H5 eq_refl) Hw H1) as (-> & _).
+  - destruct (sub_negate_assign_canon n res a r1 Hres Ha Hw H1) as (-> & _).
     destruct (sub_canon n res a res r2 Hres Ha Hres Hw H2) as (-> & _). reflexivity.
   - destruct (negate_assign_canon n res r1 Hres Hw H1) as (-> & _).
     destruct (negate_canon n res res r2 Hres Hres Hw H2) as (-> & _). reflexivity.
@@ -193,33 +193,27 @@ Theorem step_exact_small n opc k res a b F ix iy :
   exact_F opc k = Some (F, ix, iy) ->
   wf_glwe n res -> wf_glwe n a -> wf_glwe n b ->
   gsmall res -> gsmall a -> gsmall b ->
-  (opc = 5 -> g_ncols a = g_ncols res) ->
   step_exact n opc k res a b.
 Proof.
-  intros HF Hres Ha Hb Sr Sa Sb H5. unfold step_exact. rewrite HF.
+  intros HF Hres Ha Hb Sr Sa Sb. unfold step_exact. rewrite HF.
   unfold exact_F in HF. destruct opc as [|p|p]; try discriminate.
   repeat (match goal with q : positive |- _ => destruct q end; try (cbn in HF; discriminate)).
-  all: injection HF as <- <- <-; cbn [Fw pick3]; split; [|exact H5]; intros i j.
+  all: injection HF as <- <- <-; cbn [Fw pick3]; intros i j.
   all: unfold Fadd, Fsub, Fneg, Fid, Frot, Fmx1.
   all: try reflexivity.
   all: first [ apply small_vadd | apply small_vsub | apply small_vneg | apply small_rotate | apply small_mul_xp ];
        try (apply gsmall_gl; assumption); rewrite !gl_length by assumption; reflexivity.
 Qed.
 
-(* ---------------------------------------------------------------- the defect, on the model *)
+(* ---------------------------------------------------------------- regression instance of the repaired glwe_sub_negate_assign *)
 (* res of rank 1, a of rank 0 (a plaintext), n = 1, one limb:  res = (5, 7), a = (1), s = (1).
-   glwe_sub_negate_assign leaves the mask 7 as it is: phase = (1 - 5) + 7 = 3, whereas a - phase(res) = 1 - 12 = -11. *)
+   Before repair efc2285 the mask 7 kept its sign (phase 3); now phase = (1 - 5) - 7 = -11 = a - phase(res). *)
 Definition cx_res : glwe := {| g_b := 10; g_n := 1; g_size := 1; g_cols := [[[5]]; [[7]]] |}.
 Definition cx_a : glwe := {| g_b := 10; g_n := 1; g_size := 1; g_cols := [[[1]]] |}.
-Theorem sub_negate_assign_rank0_refuted :
-  exists n s res a r, secret_ok n s /\ wf_glwe n res /\ wf_glwe n a /\ gsmall res /\ gsmall a /\
-    g_rank a = 0%nat /\ glwe_sub_negate_assign n res a = Some r /\
-    phase n s r <> pt_map2 Fsub n (g_size res) (phase n s a) (phase n s res).
-Proof.
-  exists 1%nat, [[1]], cx_res, cx_a, {| g_b := 10; g_n := 1; g_size := 1; g_cols := [[[-4]]; [[7]]] |}.
-  repeat split; try (repeat constructor; fail); try (unfold small; repeat constructor; lia).
-  vm_compute. discriminate.
-Qed.
+Lemma sub_negate_assign_rank0_instance :
+  exists r, glwe_sub_negate_assign 1 cx_res cx_a = Some r /\ phase 1 [[1]] r = [[-11]] /\
+            phase 1 [[1]] r = pt_map2 Fsub 1 (g_size cx_res) (phase 1 [[1]] cx_a) (phase 1 [[1]] cx_res).
+Proof. eexists. repeat split; vm_compute; reflexivity. Qed.
 
 (* ---------------------------------------------------------------- GGSW: the operation acts entry by entry *)
 Theorem ggsw_rotate_entrywise n k res a r : ggsw_rotate n k res a = Some r ->
